@@ -133,6 +133,10 @@ func runC19(c *Ctx) {
 		`{"swagger":"2.0","info":{"title":"t","version":"1"},"paths":{},"parameters":{"p":{"name":"","in":"query","type":"string"}}}`,
 		`{"swagger":"2.0","info":{"title":"t","version":"1"},"paths":{},"responses":{"r":{"description":""}}}`,
 		`{"swagger":"2.0","info":{"title":"t","version":"1"},"paths":{"/a":{"get":{"responses":{"200":{"description":""}}}}}}`,
+		// boundary of the response-key pattern ^([0-9]{3})$: codes that are no assigned HTTP status
+		`{"swagger":"2.0","info":{"title":"t","version":"1"},"paths":{"/a":{"get":{"responses":{"999":{"description":"d"}}}}}}`,
+		`{"swagger":"2.0","info":{"title":"t","version":"1"},"paths":{"/a":{"get":{"responses":{"600":{"description":"d"},"x-note":1}}}}}`,
+		`{"swagger":"2.0","info":{"title":"t","version":"1"},"paths":{"/a":{"get":{"responses":{"100":{"description":"d"}}}}}}`,
 	}
 	for _, b := range boundary {
 		cands = append(cands, wire.MustParse(b))
